@@ -116,7 +116,7 @@ def verdict (run : Run) (impl : List String) : String :=
       match firstSome rows (fun r => (rowViolation run r).map (fun c => c ++ "@" ++ strOfBytes r.filename ++ ":" ++ strOfBytes r.scannr ++ "#" ++ toString r.rank)) with
       | some c => "bad:row_" ++ c
       | none =>
-        match tableViolation run rows with
+        match (tableViolation run rows).orElse (fun _ => spectrumQViolation rows) with
         | some c => "bad:" ++ c
         | none =>
           match (if run.cfg.pin then pinViolation rows pins else none) with
